@@ -59,14 +59,40 @@ def make_case(rng, i, tier):
         desc, shape = gen.gen_finite_cfg(rng), "finite"
     else:
         desc, shape = gen.gen_cfg(rng, maxrules=6, nterms=2)
+    V = desc["V"]
+    if rng.random() < 0.35:
+        # a token behind SEVERAL consecutive nullable nonterminals with null weights different from one
+        # (the derivative multiplies the null weights of everything it skips)
+        rules = desc["rules"]
+        na, nb = "Na", "Nb"
+        t = rng.choice(V)
+        rules.append([common.frac_str(rng.choice(gen.SMALL)), na, []])
+        rules.append([common.frac_str(rng.choice(gen.SMALL)), na, [rng.choice(V)]])
+        rules.append([common.frac_str(rng.choice(gen.SMALL)), nb, []])
+        rules.append([common.frac_str(rng.choice(gen.SMALL)), nb, [rng.choice(V), nb] if finite is False and rng.random() < 0.3 else [rng.choice(V)]])
+        rules.append([common.frac_str(rng.choice(gen.SMALL)), "S", [na, nb, t] + ([rng.choice(V)] if rng.random() < 0.5 else [])])
+        if rng.random() < 0.5:
+            rules.append([common.frac_str(rng.choice(gen.SMALL)), "S", [nb, na, na, t]])
+        shape += "+nullable_prefix"
+    if rng.random() < 0.25 and "a" in V and "b" in V:
+        # a vocabulary in which different token sequences have the same spelling
+        desc["V"] = sorted(set(V) | {"ab"})
+        desc["rules"].append([common.frac_str(rng.choice(gen.SMALL)), "S", ["ab"] + ([rng.choice(V)] if rng.random() < 0.5 else [])])
+        desc["rules"].append([common.frac_str(rng.choice(gen.SMALL)), "S", ["a", "b"]])
+        shape += "+ambiguous_spelling"
+        V = desc["V"]
     if R == "Boolean":
         desc = gen.to_bool(desc)
     if R == "MaxTimes":
         desc = {**desc, "rules": [[w if common.num(w) <= 1 else "1", h, b] for w, h, b in desc["rules"]]}
-    V = desc["V"]
     ps = gen.all_strings(V, 2) + [[rng.choice(V) for _ in range(3)] for _ in range(3)]
     ys = gen.all_strings(V, 2) + [[rng.choice(V) for _ in range(3)] for _ in range(2)]
-    return {"id": i, "R": R, "shape": shape, "finite": finite, "cfg": desc, "ps": ps, "ys": ys, "a": rng.choice(V)}
+    if "ab" in V:
+        ps = [["a", "b"], ["ab"], ["ab", "a"], ["a", "b", "a"]] + ps
+    a = rng.choice(V)
+    if "nullable_prefix" in shape and rng.random() < 0.7:
+        a = t
+    return {"id": i, "R": R, "shape": shape, "finite": finite, "cfg": desc, "ps": ps, "ys": ys, "a": a}
 
 
 def run(ctx):
@@ -80,7 +106,7 @@ def run(ctx):
     for i, c in enumerate(cases):
         c["id"] = i
     impl_res = ctx["run_impl"](cases, hashseeds, 120)
-    allx = {c["id"]: gen.all_strings(c["cfg"]["V"], 4) for c in cases if c["finite"]}
+    allx = {c["id"]: gen.all_strings(c["cfg"]["V"], 4 if len(c["cfg"]["V"]) <= 2 else 4) for c in cases if c["finite"]}
     fin = [c for c in cases if c["finite"]]
     fw = dict(zip([c["id"] for c in fin], T.eval_wn(ctx, [(c["cfg"], c["R"], allx[c["id"]]) for c in fin])))
     # derivative: WN(G, a·y) and a·a·y; call values on ps
